@@ -22,9 +22,10 @@ class StepLimit(Exception):
 
 
 class ControlledLoop(asyncio.SelectorEventLoop):
-    def __init__(self, chooser: Callable[[int], int], max_steps: int = 200000):
+    def __init__(self, chooser: Callable[[int], int], max_steps: int = 200000, max_virtual_time: float = float("inf")):
         super().__init__()
         self._vt = 0.0
+        self.max_virtual_time = max_virtual_time
         self.chooser = chooser
         self.steps = 0
         self.max_steps = max_steps
@@ -44,6 +45,9 @@ class ControlledLoop(asyncio.SelectorEventLoop):
                 h = heapq.heappop(self._scheduled)
                 h._scheduled = False
                 self._vt = max(self._vt, h._when)
+                if self._vt > self.max_virtual_time:
+                    # only periodic timers keep the loop alive: whoever is still waiting will wait forever
+                    raise Deadlock("virtual time limit")
                 ready.append(h)
                 live = [0]
             else:
@@ -86,9 +90,9 @@ def next_path(taken: List[int], widths: List[int]) -> Optional[List[int]]:
     return None
 
 
-def run_controlled(main_factory, chooser, max_steps: int = 200000):
+def run_controlled(main_factory, chooser, max_steps: int = 200000, max_virtual_time: float = float("inf")):
     """Run `await main_factory()` on a fresh controlled loop. Returns (result, loop); raises Deadlock/StepLimit."""
-    loop = ControlledLoop(chooser, max_steps=max_steps)
+    loop = ControlledLoop(chooser, max_steps=max_steps, max_virtual_time=max_virtual_time)
     try:
         asyncio.set_event_loop(loop)
         return loop.run_until_complete(main_factory()), loop
